@@ -26,11 +26,33 @@ func (ctx Ctx) declsOrError(stmt ast.Decl) (decls []coq.Decl, err error) {
 				// r is a panic that is not a goose error, indicating a bug in
 				// goose: report it as such for this declaration instead of
 				// taking down the translation of everything else
-				err = ctx.internalError(stmt, r)
+				var where ast.Node = stmt
+				if gd, ok := stmt.(*ast.GenDecl); ok && gd.Lparen.IsValid() && len(gd.Specs) == 1 {
+					// one spec of a group: that is the offending declaration
+					where = gd.Specs[0]
+				}
+				err = ctx.internalError(where, r)
 			}
 		}
 	}()
 	return ctx.maybeDecls(stmt), nil
+}
+
+// specsOf splits a parenthesised const, var or import declaration into one
+// declaration per spec (anything else is returned as it is).
+func specsOf(d ast.Decl) []ast.Decl {
+	gd, ok := d.(*ast.GenDecl)
+	if !ok || len(gd.Specs) < 2 ||
+		(gd.Tok != token.CONST && gd.Tok != token.VAR && gd.Tok != token.IMPORT) {
+		return []ast.Decl{d}
+	}
+	var pieces []ast.Decl
+	for _, spec := range gd.Specs {
+		piece := *gd
+		piece.Specs = []ast.Spec{spec}
+		pieces = append(pieces, &piece)
+	}
+	return pieces
 }
 
 func filterImports(decls []coq.Decl) (nonImports []coq.Decl, imports coq.ImportDecls) {
@@ -75,9 +97,16 @@ func (ctx Ctx) Decls(fs ...NamedFile) (imports coq.ImportDecls, decls []coq.Decl
 			ctx.dep = &depTracker{}
 
 			id := declId{fi, di}
-			newDecls, err := ctx.declsOrError(d)
-			if err != nil {
-				errs = append(errs, err)
+			// the specs of a grouped const, var or import declaration are
+			// declarations of their own: an error in one of them does not
+			// take the others (or their errors) with it
+			var newDecls []coq.Decl
+			for _, piece := range specsOf(d) {
+				pieceDecls, err := ctx.declsOrError(piece)
+				if err != nil {
+					errs = append(errs, err)
+				}
+				newDecls = append(newDecls, pieceDecls...)
 			}
 
 			// fmt.Printf("%s depends on %s\n", ctx.dep.names, ctx.dep.deps)
